@@ -206,7 +206,8 @@ class World:
             wl = {"two": ["lp1", "lp2"], "one": ["lp1"], "empty": []}[wm]
             big = 1 << self.scale_bits
             mins = [rng_.choice([0, 0, 1, 1000, big, big >> 2]), rng_.choice([0, 0, 1, 1000, big, big >> 3])]
-            self.create_pair(a0, a1, rate, wl, mins)
+            # the LP token's own precision is free (absent = 6); nothing a pair does may depend on it
+            self.create_pair(a0, a1, rate, wl, mins, lp_dec=rng_.choice([None, None, None, 0, 3, 6, 8, 12, 18]))
         # allowances
         for p in self.pairs:
             for a in p.assets:
@@ -222,7 +223,8 @@ class World:
                 for p in self.pairs:
                     if t in p.assets:
                         self.by_allow.append((t[1], who, p.addr))
-        self.extra_accounts = []
+        # account names with blanks around them are accounts of their own in the simulator (its codec accepts them)
+        self.extra_accounts = [" recv", "recv "]
         self.retrack()
 
     # -- construction helpers ------------------------------------------------
@@ -259,13 +261,13 @@ class World:
             raise HarnessFault("setup step failed: %r" % (r,))
         return r
 
-    def create_pair(self, a0, a1, rate, whitelist, mins, sender="owner", must=True):
+    def create_pair(self, a0, a1, rate, whitelist, mins, sender="owner", must=True, lp_dec=None):
         msg = {"create_pair": {
             "asset_infos": [ainfo(a0), ainfo(a1)],
             "requirements": {"whitelist": whitelist, "first_asset_minimum": str(mins[0]),
                              "second_asset_minimum": str(mins[1])},
             "commission_rate": None if rate is None else dec_str(rate),
-            "lp_token_info": {"lp_token_name": "lptoken", "lp_token_symbol": "LPT", "lp_token_decimals": None}}}
+            "lp_token_info": {"lp_token_name": "lptoken", "lp_token_symbol": "LPT", "lp_token_decimals": lp_dec}}}
         r = self.x(sender, self.factory, msg)
         if r["r"] != "ok":
             if must:
